@@ -57,7 +57,7 @@ pub fn param(r: &mut Rng, d: Dim) -> String {
 const WIDE: &[&str] = &["あ", "世", "😀", "ｗ", "界", "🎉"];
 const ZERO: &[&str] = &["\u{301}", "\u{200b}", "\u{fe0f}", "\u{308}", "\u{200d}", "\u{20dd}"];
 const LATIN: &[&str] = &["é", "ß", "ñ", "¡", "ÿ", "Ω", "ж", "\u{a0}", "\u{ad}"];
-const ODD: &[&str] = &["\u{378}", "\u{7f}", "\u{85}", "\u{9f}", "\u{80}", "\u{fffd}", "\u{e000}", "\u{10ffff}", "\u{2028}", "\u{1f1e6}", "\u{115f}", "\u{3000}"];
+const ODD: &[&str] = &["\u{378}", "\u{7f}", "\u{85}", "\u{9f}", "\u{80}", "\u{fffd}", "\u{e000}", "\u{10ffff}", "\u{2028}", "\u{1f1e6}", "\u{115f}", "\u{3000}", "\u{17d8}", "\u{ad}", "\u{200e}", "\u{2060}", "\u{feff}", "\u{1160}"];
 
 pub const SGR: &[&str] = &[
     "", "0", "1", "2", "3", "4", "7", "22", "23", "24", "27", "30", "31", "37", "39", "40", "42", "47", "49", "90", "97",
